@@ -1341,6 +1341,18 @@ def run_fit_impl(case):
             except Exception as e:  # noqa: BLE001
                 out["err"] = f"{type(e).__name__}: {str(e)[:160]}"
         # canonical form of the optimiser call, as the model prints it
+        try:
+            _canonical_call(out, rec, case, dep, f, x, y, cons_dicts)
+        except Exception as e:  # noqa: BLE001   (arguments of a kind the model cannot print: a divergence, not a crash)
+            out["call"] = ["UNPRINTABLE", type(e).__name__, str(e)[:80].replace(" ", "_")]
+            out["call_args_ok"] = False
+        if wfun is not None:
+            out["w"] = [float(v) for v in wfun(x, y)]
+    return out
+
+
+def _canonical_call(out, rec, case, dep, f, x, y, cons_dicts):
+    if True:
         if len(rec.calls) == 1:
             c = rec.calls[0]
             if c["opt"] == "curve_fit":
@@ -1377,9 +1389,6 @@ def run_fit_impl(case):
         else:
             out["call"] = ["MULTIPLE", str(len(rec.calls))]
             out["call_args_ok"] = False
-        if wfun is not None:
-            out["w"] = [float(v) for v in wfun(x, y)]
-    return out
 
 
 def dispatch_model_line(case, w):
@@ -1748,8 +1757,14 @@ def main(ck):
         "proper subset (partial round); random DAGs with 5-7 functions and "
         "histories up to length 27 with rounds 0-2 in any order; ConditionalDistribution.fit (Normal: 2 parameters, "
         "Weibull: 3 parameters; chain, fork-join, conditioner bound twice) with every order of the parameters dict, "
-        "1-3 fits on different data; numeric: 12 shapes x bounds "
-        "none/inactive/active x weights kinds x constraints dict/list active/inactive, 3-20 points. A history is "
+        "1-3 fits on different data, also with bounds + weights callable on every function (the callable then receives y "
+        "as a Python list); decorated histories: named DAGs whose functions carry inactive bounds (tuples / lists, float / "
+        "int entries) and a weights callable (y, x, 1/y), one and two rounds, y as ndarray or list; the chained pair of "
+        "the predefined OMAE2020 model (alpha3 with d_of_x=logistics4: bounds, weights=y, integer signature defaults; "
+        "bound a >= 0 of the chained function active in half of the cases) in both call orders, 1-2 rounds; numeric: 12 "
+        "shapes x bounds none/inactive/active x weights kinds x constraints dict/list active/inactive (constraints also "
+        "with active bounds) x start values assigned / signature defaults / partial defaults x bounds as tuples / lists / "
+        "Python ints x y as ndarray / list, 3-20 points. A history is "
         "non-trivial if it has >= 2 calls and calls a function that has a conditioner; a fit case if the fit "
         "returned and has >= 3 points; distinct by SHA1 of the case"
     )
@@ -1769,7 +1784,17 @@ def main(ck):
         "optimality_partial": "residual <= residual(start) and <= residual at admissible perturbations "
         "(relative 1e-1..1e-4 along axes and pairs of axes) is observed on the real optimiser output for every "
         "explored case; not a theorem (curve_fit / SLSQP are scipy's)",
-        "in_bounds_and_constraints_observed": "bounds exactly, constraints >= -1e-6*scale on the returned parameters",
+        "in_bounds_and_constraints_observed": "bounds exactly, constraints >= -(1e-5 + 1e-6*scale) on the returned "
+        "parameters (SLSQP accepts a summed violation below 10*acc, acc = 1e-6)",
+        "weights_with_constraints_not_covered": "a weights callable together with declared constraints is refused by the "
+        "code (NotImplementedError, fit_constrained_function supports 'lsq' only): for this combination of the "
+        "quantifier no fit exists, so no clause of the property is checked there; the refusal itself is compared with "
+        "the model's dispatch (constrained_weighted_refused)",
+        "slsqp_nonlinear_shapes": "constrained fits of shapes non-linear in their parameters: residual clauses fail in "
+        "about 0.4 % of the fits on the unchanged code (known findings, one signature per clause, shape and size class "
+        "of the gap); other shapes / size classes, or a rate above max(4, 3 %) of such fits in a run, are violations",
+        "start_values": "the start parameters are the defaults declared in the shape's signature (1 where there is "
+        "none): observed on the constructed object and at the optimiser call",
         "linear_shapes": "normal_equations_minimise / affineLsq_minimises are theorems; that curve_fit returns that "
         "solution (rtol 1e-5) is observed",
     }
